@@ -67,6 +67,10 @@ def validate_scheme(run, obj, arguments, label=None):
     if cls == "BazantOh":
         label = label or "BazantOh(n=%s)" % arguments.get("n", 21)
         tol = TABLE_TOL[cls]
+        if pts.ndim != 2 or pts.shape[1] != 3:
+            # the reference domain is the unit sphere in three dimensions (a padded zero column keeps norm and monomials)
+            run.fail(mon, "scheme=%s clause=shape" % label, "%s: wrong point dimension" % label, unit=label + ":inside")
+            return
         e1 = maxabs(np.linalg.norm(pts, axis=1) - 1)
         run.compare(mon, "scheme=%s clause=inside" % label, e1, tol, "%s: points not on the unit sphere" % label,
                     unit=label + ":inside")
@@ -93,6 +97,10 @@ def validate_scheme(run, obj, arguments, label=None):
         label = label or "%s(order=%s)" % (cls, order)
         tol = TABLE_TOL[cls]
         measure = 1.0 / math.factorial(dim)
+        if pts.ndim != 2 or pts.shape[1] != dim:
+            # the reference domain is the simplex of that dimension (mono() reads the first coordinates only)
+            run.fail(mon, "scheme=%s clause=shape" % label, "%s: wrong point dimension" % label, unit=label + ":inside")
+            return
         inside = max(maxabs(np.minimum(pts, 0)), max(0.0, float((pts.sum(1) - 1).max())))
         run.compare(mon, "scheme=%s clause=inside" % label, inside, 1e-12,
                     "%s: a point lies outside the closed reference simplex" % label, unit=label + ":inside",
@@ -178,12 +186,28 @@ def validate_scheme(run, obj, arguments, label=None):
     run.skip("scheme.other", "unknown scheme class " + cls)
 
 
+# defaults of the documented signatures ("permute : bool, optional ... Default is True", "n : int, optional ... Default is 21")
+DOCUMENTED_DEFAULTS = {"GaussLegendre": {"permute": True}, "GaussLegendreBoundary": {"permute": True}, "BazantOh": {"n": 21}}
+
+
+def documented_arguments(cls, arguments):
+    """The arguments a scheme is judged against: what the caller passed, and for the names the caller left out the default the
+    documentation states - not the default the signature under test filled in (fourth audit: a changed default would be consistent
+    with itself)."""
+    if not isinstance(arguments, attach.Arguments) or not arguments:
+        return arguments
+    out = dict(arguments)
+    for name, default in DOCUMENTED_DEFAULTS.get(cls, {}).items():
+        out[name] = arguments.documented(name, default)
+    return out
+
+
 def attach_constructors(run):
     import felupe.quadrature as Q
 
     def post(obj, arguments):
         run.seen("scheme." + type(obj).__name__)
-        validate_scheme(run, obj, arguments)
+        validate_scheme(run, obj, documented_arguments(type(obj).__name__, arguments))
 
     for cls in (Q.GaussLegendre, Q.GaussLegendreBoundary, Q.GaussLobatto, Q.GaussLobattoBoundary, Q.Triangle,
                 Q.Tetrahedron, Q.BazantOh):
